@@ -942,7 +942,59 @@ def check_version(ctx):
             R.guard(ctx, inst, b, [s], A.pred_edges(b, v1, "true"), "the larger v1 bound applies only to format version 1")
 
 
+def check_bounds(ctx):
+    """limits that decide what counts as a (recoverable) record: strictness and operands pinned"""
+    from rules.common import pin_comparisons
+    inst = "C10.bounds"
+    def C(name):
+        return lambda e: e.has_const(name=name) and not any(x.k == "bin" for x in e.walk())
+    def keylen(b):
+        return lambda e: (e.has_call("slice::len") or e.has_call("Vec::len")) and ("key" in names_of(b, e) or e.has_arg(name="key"))
+    b = ctx.fn("FeoxStore::validate_new_key", inst)
+    if b is not None:
+        pin_comparisons(ctx, inst, b, [
+            ("Lt", C("MAX_KEY_SIZE"), keylen(b), "a key longer than MAX_KEY_SIZE is refused (`len > MAX_KEY_SIZE`)"),
+            ("Lt", C("MAX_RECOVERABLE_KEY_SIZE"), keylen(b), "a key of exactly MAX_RECOVERABLE_KEY_SIZE is accepted (`len <= MAX`)"),
+            ("Lt", C("MAX_RECOVERABLE_KEY_SIZE_V1"), keylen(b), "on v1 a key of exactly MAX_RECOVERABLE_KEY_SIZE_V1 is accepted"),
+        ])
+    b = ctx.fn("FeoxStore::validate_key_value", inst)
+    if b is not None:
+        pin_comparisons(ctx, inst, b, [
+            ("Lt", C("MAX_VALUE_SIZE"), lambda e: e.has_call("slice::len") and e.has_arg(idx=3), "a value of exactly MAX_VALUE_SIZE is accepted"),
+        ])
+    for impl, tail in (("FormatV1", 16), ("FormatV2", 24)):
+        b = impl_fn(ctx, inst, impl, "parse_record")
+        if b is None:
+            continue
+        def total(e, tail=tail):
+            l = None
+            ks = {n.id for n in b.calls() if call_matches(n.ev, "from_le_bytes") and width_of(n.ev) == "u16"}
+            offs = {x: Lin(6, 0) for x in range(len(b.locals)) if b.local_name(x) and b.local_ty(x) == "usize" and len(b.defs.get(x, [])) >= 2}
+            l = lin(b, e, offs, ks)
+            return l is not None and l.t() == [6 + tail, 1]
+        pin_comparisons(ctx, inst, b, [
+            ("Lt", lambda e: e.has_call("slice::len") and e.has_arg(idx=2), total,
+             "%s::parse_record refuses a header only if it does not fit (`6 + key_len + %d > data.len()`)" % (impl, tail)),
+        ])
+    b = ctx.fn("FeoxStore::scan_and_rebuild_indexes", inst)
+    if b is not None:
+        def parsed(idx):
+            return lambda e: any(x.k == "field" and x.extra[1] == str(idx) and x.has_call("RecordFormat::parse_record") for x in e.walk())
+        pin_comparisons(ctx, inst, b, [
+            ("Lt", C("MAX_KEY_SIZE"), lambda e: e.has_call("Vec::len") and parsed(0)(e), "recovery accepts keys up to MAX_KEY_SIZE inclusive"),
+            ("Lt", C("MAX_VALUE_SIZE"), parsed(1), "recovery accepts values up to MAX_VALUE_SIZE inclusive"),
+            ("Eq", lambda e: e.k == "const" and (e.extra or {}).get("val") == 0, parsed(1), "recovery rejects empty values"),
+        ])
+    b = ctx.fn("format::sector_holds_record", inst)
+    if b is not None:
+        pin_comparisons(ctx, inst, b, [
+            ("Lt", lambda e: e.has_call("slice::len") and not any(x.k == "bin" for x in e.walk()), lambda e: e.k == "bin" and e.extra == "Add" and e.has_const(val=16),
+             "identity check needs value_len + timestamp to be inside the buffer (`value_len_at + 16 > data.len()` => false)"),
+        ])
+
+
 def check(ctx):
+    check_bounds(ctx)
     check_consts(ctx)
     check_record(ctx)
     check_token(ctx)
